@@ -1934,7 +1934,18 @@ pub fn c11(r: &mut Rng, out: &mut Out, n: usize) {
         let ring = holes_in_disc(r, 3, c, rad);
         for j in 0..k {
             let nv = 3 + r.below(6);
-            let (closed, pts): (bool, Vec<Point3D>) = match r.below(13) {
+            let (closed, pts): (bool, Vec<Point3D>) = match r.below(14) {
+                13 if j == 0 && o.len() > 3 => {
+                    // a hole one of whose vertices lies on the line from the midpoint of the FIRST outer edge through another
+                    // outer vertex: the ray of the point-in-loop test (which leaves the tested point away from that midpoint)
+                    // then passes exactly through a vertex of the outline (the vertex rule of the crossing count decides)
+                    let m = mid(o[0], o[1]);
+                    let i = 2 + r.below(o.len() - 2);
+                    let p = lerp(m, o[i], r.pick(&[0.3, 0.5, 0.7]));
+                    let q1 = lerp(p, c, 0.15);
+                    let q2 = (q1.0 + 0.06 * rad, q1.1 + 0.045 * rad);
+                    (true, placed(&f, &[p, q1, q2]))
+                }
                 12 if j == 0 => {
                     // a small hole just inside the outline next to the midpoint of the FIRST outer edge (where the ray of the
                     // point-in-loop test starts): clearly admissible when the corner angles allow it, else band
@@ -1948,7 +1959,7 @@ pub fn c11(r: &mut Rng, out: &mut Out, n: usize) {
                     let h = hole(r, hn, (m.0 + nrm.0 * dd, m.1 + nrm.1 * dd), 0.06);
                     (true, placed(&f, &h))
                 }
-                12 | 0 | 1 | 2 => {
+                13 | 12 | 0 | 1 | 2 => {
                     // clearly inside (disjoint sectors of the free disc)
                     let h = ring[j % 3].clone();
                     let cx = h.iter().map(|p| p.0).sum::<f64>() / h.len() as f64;
